@@ -24,7 +24,7 @@
 (***************************************************************************)
 EXTENDS PathSafe, PathSafeProp, Json, IOUtils
 Log == ndJsonDeserialize(IOEnv.VERIF_TRACE)
-VARIABLES l, cur
+VARIABLES l, cur, badl     \* badl: log line at which the latch of the current scenario was set (for REJECT lines)
 Ev == Log[l]
 NoScn == [ep |-> "-", n |-> 0]
 ScnOf(e) == [n |-> e.n, ep |-> e.ep, segs |-> e.segs, lead |-> e.lead, trail |-> e.trail, unpack |-> e.unpack, strip |-> e.strip,
@@ -32,18 +32,19 @@ ScnOf(e) == [n |-> e.n, ep |-> e.ep, segs |-> e.segs, lead |-> e.lead, trail |->
 ToSet(s) == {s[i] : i \in 1..Len(s)}
 \* drift: the real run touched a path the design model does not predict (model vocabulary)
 Drift(e) == cur.ep \in {"art", "tar", "lnk"} /\ ~(ToSet(e.touched) \subseteq Touches(cur))
-TInit == PInit /\ l = 1 /\ cur = NoScn
+TInit == PInit /\ l = 1 /\ cur = NoScn /\ badl = 0
 TNext ==
   /\ l <= Len(Log)
   /\ l' = l + 1
-  /\ \/ Ev.ev = "scn" /\ PScenario(Ev.allow) /\ cur' = ScnOf(Ev) /\ (bad # "" => PrintT(<<"REJECT", cur.n, bad>>))
+  /\ \/ Ev.ev = "scn" /\ PScenario(Ev.allow) /\ cur' = ScnOf(Ev) /\ (bad # "" => PrintT("REJECT|" \o ToString(cur.n) \o "|" \o ToString(badl) \o "|" \o bad))
      \/ Ev.ev = "sys" /\ PWrite(Ev.call, Ev.phys, Ev.lex) /\ UNCHANGED cur
      \/ Ev.ev = "rd" /\ PRead(Ev.phys) /\ UNCHANGED cur
      \/ Ev.ev = "chg" /\ PChange(Ev.what, Ev.path) /\ UNCHANGED cur
      \/ Ev.ev = "vic" /\ PVictim(Ev.same) /\ UNCHANGED cur
      \/ Ev.ev = "obs" /\ PSkip /\ UNCHANGED cur /\ (Drift(Ev) => PrintT(<<"DRIFT", Ev.n>>))
      \/ Ev.ev = "skip" /\ PSkip /\ UNCHANGED cur
-TSpec == TInit /\ [][TNext]_<<allow, bad, l, cur>>
+  /\ badl' = IF bad' = "" THEN 0 ELSE IF bad = "" \/ Ev.ev = "scn" THEN l ELSE badl
+TSpec == TInit /\ [][TNext]_<<allow, bad, l, cur, badl>>
 Ok == POk
 HW == TLCSet(1, IF TLCGet(1) > l THEN TLCGet(1) ELSE l)
 Accepted == PrintT(<<"HIGHWATER", TLCGet(1), Len(Log)>>)
